@@ -93,6 +93,18 @@ let preimg_s = function
   | None -> "preimage none"
   | Some p -> "preimage " ^ String.concat ";" (List.map (fun (k, l) -> zs k ^ ":" ^ String.concat "," (List.map zs l)) p)
 
+(* ---------- format strings ---------- *)
+let rec ints_of_str (l : n list) : int list = List.map (fun x -> ZA.to_int (zarith_of_n x)) l
+let out_ints (l : int list) : string = "s" ^ String.concat "," (List.map string_of_int l)
+let perl_item_s = function PLit t -> "L" ^ out_str t | PField n -> "F" ^ out_str n
+let perl_res_s (r : (pitem list, perl_err) outcome) : string =
+  match r with
+  | Ok its ->
+    let names = List.sort_uniq compare (List.map ints_of_str (names_of its)) in
+    "ok " ^ String.concat " " (List.map perl_item_s its) ^ " | " ^ String.concat " " (List.map out_ints names)
+  | Err p -> "err Error " ^ out_str p   (* perl_err is extracted as its single field *)
+  | Crash c -> "crash " ^ crash_name c
+
 (* ---------- dispatch ---------- *)
 let handle (op : string) (a : string array) : string =
   match op with
@@ -125,6 +137,8 @@ let handle (op : string) (a : string array) : string =
      | Ok (ds, pre) -> String.concat " | " (List.map pdiag_s ds @ [preimg_s pre])
      | Err _ -> "crash PluralFormsSyntaxError"
      | Crash c -> "crash " ^ crash_name c)
+  | "perlbrace" -> perl_res_s (fst (perl_parse_ucd (arg_str a.(0))))
+  | "perlsteps" -> string_of_int (int_of_nat (snd (perl_parse_ucd (arg_str a.(0)))))
   | _ -> "unknown-op " ^ op
 
 let () =
